@@ -45,7 +45,7 @@ ASSUMPTIONS = [
     "date microseconds are restricted to values llbase's text date parser does not truncate (int(float('0.x')*1e6), "
     "third-party code)",
 ]
-MUST_REACH = {"msg_dict_roundtrips": 400, "msg_xml_roundtrips": 400, "templates_covered": 481, "tree_roundtrips": 2000,
+MUST_REACH = {"msg_roundtrips_custom_template": 300, "msg_dict_roundtrips": 400, "msg_xml_roundtrips": 400, "templates_covered": 481, "tree_roundtrips": 2000,
               "codec_binary": 300, "codec_binary_noheader": 300, "codec_zipped": 300, "codec_notation": 300, "codec_xml": 300,
               "dates_checked": 100, "aware_dates_checked": 20, "uris_checked": 50, "newline_strings_checked": 50,
               "quaternion_messages": 5, "tz_covered": 3, "u64_messages": 10, "ip_messages": 5}
@@ -57,6 +57,17 @@ _es.ENABLE_DEFERRED_PACKET_PARSING = False
 _udp_deser = UDPMessageDeserializer(settings=_es)
 
 UTC = datetime.timezone.utc
+
+from ..custom_template import custom_template_file  # noqa: E402
+from hippolyzer.lib.base.message.template_dict import TemplateDictionary  # noqa: E402
+
+_CUSTOM_TD = TemplateDictionary(message_template=custom_template_file())
+CONFIGS = {
+    "stock": (_llsd_ser, _udp_deser),
+    "custom": (LLSDMessageSerializer(message_template=custom_template_file()),
+               UDPMessageDeserializer(settings=_es)),
+}
+CONFIGS["custom"][1].template_dict = _CUSTOM_TD      # (the deserializer takes its template dictionary as an attribute)
 
 
 # ------------------------------------------------------------------ typed canonical form
@@ -339,7 +350,8 @@ def finite_spec(spec):
     return True
 
 
-def check_message(ctx, tmpl, spec):
+def check_message(ctx, tmpl, spec, config="stock"):
+    _llsd_ser, _udp_deser = CONFIGS[config]
     msg = gen_msg.build_message(spec)
     types = {v.type for b in tmpl.blocks for v in b.variables}
     variants = [("built", msg)]
@@ -350,7 +362,7 @@ def check_message(ctx, tmpl, spec):
     for vname, m in variants:
         for form in ("dict", "xml"):
             ctx.ev()
-            wit = {"spec": spec, "form": form, "variant": vname, "tz": os.environ.get("TZ")}
+            wit = {"spec": spec, "form": form, "variant": vname, "tz": os.environ.get("TZ"), "template_config": config}
             try:
                 packed = _llsd_ser.serialize(m, as_dict=(form == "dict"))
             except Exception as e:
@@ -381,6 +393,9 @@ def check_message(ctx, tmpl, spec):
                               dict(wit, problem=prob[:300]))
                 continue
             ctx.count(f"msg_{form}_roundtrips")
+            if config != "stock":
+                ctx.count("msg_roundtrips_custom_template")
+                continue
             ctx.cover("templates", tmpl.name)
             ctx.nontrivial(("msg", tmpl.name, tuple(len(e or ()) for _, e in spec["blocks"]), form, vname))
     if MsgType.MVT_LLQuaternion in types:
@@ -439,6 +454,18 @@ def run(ctx):
                 continue
             spec["acks"] = []
             check_message(ctx, tmpl, spec)
+            # the same message name under a caller-supplied template (other wire types for many variables), by a second
+            # serializer living in the same process - and then the stock one again
+            if k % 3 == 0:
+                ctmpl = _CUSTOM_TD[tmpl.name]
+                for _ in range(5):
+                    cspec = gen_msg.gen_spec(rng, ctmpl, {"xml_safe": True, "flags": 0, "p_extra": 0, "max_var_len": 200,
+                                                        "small_block": 8})
+                    if finite_spec(cspec) and _xml_ok(cspec):
+                        cspec["acks"] = []
+                        check_message(ctx, ctmpl, cspec, config="custom")
+                        check_message(ctx, tmpl, spec)
+                        break
 
 
 def _wants(tmpl):
